@@ -31,6 +31,33 @@ def node_roles(P):
     return dict(cw=cw, aw=aw, parser=parser, lost_role=(sets_false - sets_true) - parser, new_roles=(sets_true & addr_writers) - parser)
 
 
+def wmw_rule(chk, w, roles, rid):
+    """shared with C20: the flag and address that gate and direct all start-up commands have fixed writers"""
+    P = w.P
+    cw, aw, new_roles, lost_role, parser = roles["cw"], roles["aw"], roles["new_roles"], roles["lost_role"], roles["parser"]
+    # ---- WMW
+    chk.rule(rid, "connected / node_addr have fixed writer roles (connect: both; lost: connected=false only; parser) and are written under the boards write lock")
+    for (f, i, k) in cw + aw:
+        fld = CONNECTED if (f, i, k) in cw else NODE_ADDR
+        if f.name in parser or f.name in new_roles:
+            chk.ok(rid, 1, {"writer": f.name, "field": fld})
+        elif f.name in lost_role and fld == CONNECTED:
+            chk.ok(rid, 1, {"writer": f.name, "field": fld})
+        else:
+            chk.violation(rid, f.name, fld, i.loc(), "%s is written by %s, which is neither a connect routine, the lost-node routine (connected only) nor the parser" % (fld, f.name))
+    db = access.AccessDB(w)
+    nw = 0
+    for a in db.by_region.get(("bidib_boards", None), []):
+        if a.mode == "w" and a.field in (CONNECTED, NODE_ADDR):
+            nw += 1
+            if locks.ls_get(a.ls, "bidib_boards_rwlock") != "W":
+                chk.violation(rid, a.fn.name, a.field + ":lock", a.loc(), "%s written with lockset %s (needs bidib_boards_rwlock in write mode)" % (a.field, locks.ls_str(a.ls)))
+            else:
+                chk.ok(rid, 1)
+    chk.floor("locked_board_writes", nw, 4)
+
+
+
 def upd_rule(chk, P, roles, rid):
     """shared with C09: commands go to the board's *current* address only if every node-new notice for a configured board rewrites it"""
     cw, aw, new_roles, lost_role, parser = roles["cw"], roles["aw"], roles["new_roles"], roles["lost_role"], roles["parser"]
@@ -160,26 +187,7 @@ def run(chk, w):
                     else:
                         chk.ok("C15-ACK", 1, {"type": tname, "local_address_offset": 1})
 
-    # ---- WMW
-    chk.rule("C15-WMW", "connected / node_addr have fixed writer roles (connect: both; lost: connected=false only; parser) and are written under the boards write lock")
-    for (f, i, k) in cw + aw:
-        fld = CONNECTED if (f, i, k) in cw else NODE_ADDR
-        if f.name in parser or f.name in new_roles:
-            chk.ok("C15-WMW", 1, {"writer": f.name, "field": fld})
-        elif f.name in lost_role and fld == CONNECTED:
-            chk.ok("C15-WMW", 1, {"writer": f.name, "field": fld})
-        else:
-            chk.violation("C15-WMW", f.name, fld, i.loc(), "%s is written by %s, which is neither a connect routine, the lost-node routine (connected only) nor the parser" % (fld, f.name))
-    db = access.AccessDB(w)
-    nw = 0
-    for a in db.by_region.get(("bidib_boards", None), []):
-        if a.mode == "w" and a.field in (CONNECTED, NODE_ADDR):
-            nw += 1
-            if locks.ls_get(a.ls, "bidib_boards_rwlock") != "W":
-                chk.violation("C15-WMW", a.fn.name, a.field + ":lock", a.loc(), "%s written with lockset %s (needs bidib_boards_rwlock in write mode)" % (a.field, locks.ls_str(a.ls)))
-            else:
-                chk.ok("C15-WMW", 1)
-    chk.floor("locked_board_writes", nw, 4)
+    wmw_rule(chk, w, dict(cw=cw, aw=aw, new_roles=new_roles, lost_role=lost_role, parser=parser), "C15-WMW")
 
     # ---- ADDR
     chk.rule("C15-ADDR", "a node address is assigned only where the same board is marked connected")
